@@ -584,8 +584,6 @@ pub struct C03 {
 	closed_s_chans: BTreeSet<ChannelId>,
 	any_chan_closed: bool,
 	next_restart_loses_writes: bool,
-	/// channels S was asked to force-close while it had monitor updates of them in flight: (channel, step)
-	fc_with_inflight: Vec<(ChannelId, u64)>,
 	/// restarts of S at which monitor updates that were written but not completed were lost
 	lossy_restarts: Vec<u64>,
 	start_cap: Option<u64>,
@@ -618,7 +616,6 @@ impl C03 {
 			closed_s_chans: BTreeSet::new(),
 			any_chan_closed: false,
 			next_restart_loses_writes: false,
-			fc_with_inflight: vec![],
 			lossy_restarts: vec![],
 			start_cap: sim.c03_s_capacity(),
 			stats: C03Stats::default(),
@@ -681,18 +678,7 @@ impl C03 {
 			return Ok("send-skipped");
 		}
 		Ok(match op {
-			XOp::Base(op) => {
-				if let Op::ForceClose { chan, by_funder } = op {
-					let ci = pick(*chan, sim.chans.len());
-					let c = &sim.chans[ci];
-					let me = if *by_funder { c.a } else { c.b };
-					if me == S && sim.w.pending_updates(S).iter().any(|(pc, _)| *pc == c.id) && sim.chan_details(S, ci).is_some() {
-						let step = sim.log.last().map(|(s, _)| *s).unwrap_or(0);
-						self.fc_with_inflight.push((c.id, step));
-					}
-				}
-				apply(sim, spec, op)
-			},
+			XOp::Base(op) => apply(sim, spec, op),
 			XOp::SendRoute { route, amt, tweak } => {
 				let routes = s_routes(spec.topo);
 				let chans = routes[pick(*route, routes.len())].clone();
@@ -956,20 +942,37 @@ impl C03 {
 		self.restarts.last().map(|r| r.1)
 	}
 
-	/// Exact shape of a listed finding: S was asked (API) to force-close a channel of one of these parts while
-	/// monitor updates of that channel were still in flight, the commitment transaction it broadcast then is the
-	/// one that confirmed, and a later restart of S lost written-but-incomplete monitor updates (the restored
-	/// monitor has no data for that transaction).
+	/// Exact shape of a listed finding: S handed a commitment transaction of the channel of one of these parts to
+	/// the broadcaster while monitor updates of that channel were still in flight (Persist had answered
+	/// InProgress), a later restart of S lost written-but-incomplete monitor updates (so the restored monitor has
+	/// no data for that transaction), and that transaction is the one that confirmed.
 	fn broadcast_before_durable(&self, sim: &Sim, parts: &[((ChannelId, usize, u64), Htlc)]) -> bool {
+		let hist = crate::rec::hist_since(0);
 		for (k, _) in parts.iter() {
-			let Some((_, fc_step)) = self.fc_with_inflight.iter().find(|(c, _)| *c == k.0) else { continue };
-			let Some(lossy) = self.lossy_restarts.iter().find(|r| **r > *fc_step) else { continue };
 			let Some(c) = sim.chans.iter().find(|c| c.id == k.0) else { continue };
 			let funding = c.funding_tx.compute_txid();
-			let confirmed_spend = sim.chain.confirmed.values().find(|(tx, _)| tx.input.iter().any(|i| i.previous_output.txid == funding)).map(|(tx, _)| tx.compute_txid());
-			let Some(spend) = confirmed_spend else { continue };
-			let by_s_before = sim.log.iter().any(|(st, e)| *st > *fc_step && *st < *lossy && matches!(e, SEvent::Broadcast { node: S, tx, .. } if tx.compute_txid() == spend));
-			if by_s_before {
+			let Some(spend) = sim.chain.confirmed.values().find(|(tx, _)| tx.input.iter().any(|i| i.previous_output.txid == funding)).map(|(tx, _)| tx.compute_txid()) else { continue };
+			let Some(b) = sim.log.iter().find(|(_, e)| matches!(e, SEvent::Broadcast { node: S, tx, .. } if tx.compute_txid() == spend)).map(|(st, _)| *st) else { continue };
+			if !self.lossy_restarts.iter().any(|r| *r > b) {
+				continue;
+			}
+			// updates of this channel handed to S's persister as InProgress before the broadcast and not completed by then
+			let mut inflight: BTreeSet<u64> = BTreeSet::new();
+			for (st, e) in hist.iter() {
+				if *st >= b {
+					break;
+				}
+				match e {
+					crate::rec::HEvent::PersistUpdate { node: S, chan, update_id: Some(id), in_progress: true, .. } if *chan == k.0 => {
+						inflight.insert(*id);
+					},
+					crate::rec::HEvent::PersistCompleted { node: S, chan, update_id } if *chan == k.0 => {
+						inflight.remove(update_id);
+					},
+					_ => {},
+				}
+			}
+			if !inflight.is_empty() {
 				return true;
 			}
 		}
